@@ -1,9 +1,34 @@
-"""Obligations for C13."""
+"""Obligations for C13 (Canonicalize produces the RFC 8785 form)."""
 import os
 from oblib import ob
 
-BOUNDS = {"quick": "", "thorough": ""}
-ASSUMPTIONS = []
+BOUNDS = {
+    "quick": "cmp: CompareUTF16 on all byte strings x,y of 0..2 bytes each (full range, ill-formed included) plus skeletons with "
+             "2-3 free bytes per side reaching 3- and 4-byte sequences (U+E000..U+FFFF against supplementary planes). "
+             "order/class: Value.Canonicalize on object skeletons with 2-3 members, one nested level, names of 1-2 free bytes "
+             "(full byte range) or fixed 3/4-byte lead bytes with free continuation bytes, values fixed small integers or one free byte; "
+             "whitespace variants; escape re-spelling by the reference transformer. num: 20 concrete literals x 3 positions x 4 flag sets. "
+             "OUTSIDE: longer names, more members, deeper nesting; the digits strconv produces for a float64 (numbers with symbolic "
+             "digits are restricted to integers of at most 15 digits and not -0, whose canonical spelling is the literal itself).",
+    "thorough": "as quick with x,y up to 3 bytes each, three-member skeletons with two free bytes per name, \\\\u escape holes in names, "
+                "nested objects in arrays, and 3-string transitivity skeletons. OUTSIDE: as quick.",
+}
+ASSUMPTIONS = [
+    "the ECMAScript shortest digits of a float64 are produced by strconv.AppendFloat/ParseFloat, executed only on concrete literals; "
+    "with symbolic digits only integer literals of <= 15 digits (own canonical form) are admitted (vrt.Assume on the bytes around holes)",
+    "sync.Pool (encoder, decoder, member slices) modelled LIFO",
+]
+
+P = "jsontext"
+W = "internal/jsonwire"
+
+NUMS = [("-0", "0"), ("0", "0"), ("1.50", "1.5"), ("1e2", "100"), ("-0.0", "0"), ("1E-7", "1e-7"),
+        ("12345678901234567890", "12345678901234567000"), ("1e400", "1.7976931348623157e+308"),
+        ("-1e400", "-1.7976931348623157e+308"), ("123456789012345678", "123456789012345680"),
+        ("9007199254740993", "9007199254740992"), ("100000000000000000000", "100000000000000000000"),
+        ("1000000000000000000000", "1e+21"), ("0.000001", "0.000001"), ("0.0000001", "1e-7"), ("1.0", "1"),
+        ("-1.5e+3", "-1500"), ("123456789012345", "123456789012345"), ("1234567890123456", "1234567890123456"),
+        ("-123456789012345678", "-123456789012345680")]
 
 
 def obligations(tier):
@@ -14,4 +39,39 @@ def obligations(tier):
         a = json.loads(os.environ["C12_PROBE"])
         L.append(ob("probe", a[0], a[1], a[2:]))
         return L
+    # ---- cmp
+    m = 2 if q else 3
+    for nx in range(m + 1):
+        for ny in range(nx, m + 1):  # (ny, nx) is covered through the antisymmetry assertion
+            cov = ["well-formed"] + (["ill-formed"] if nx + ny > 0 else []) + (["less"] if ny > 0 else [])
+            L.append(ob("cmp/full/nx=%d/ny=%d" % (nx, ny), W, "VerifC13Cmp", [nx, ny], covers=cov))
+    T = [("%EE??", "%F0%90??"), ("%F0%90??", "%EF??"), ("%EF%BF?", "%F0?%80%80"), ("a%ED??", "a%F4%8F??"), ("%F0%9F%98?", "%F0%9F?%80")]
+    if not q:
+        T += [("?%EF%BF%BD", "?%F0%90%80%80"), ("%F0???", "%EE??"), ("%E2%82%AC?", "%E2%82%AC%F0%90%80?"), ("???", "%F0%90%80%80"), ("%F0%9F%98%80?", "%F0%9F%98%80%EF%BF?")]
+    for i, (x, y) in enumerate(T):
+        L.append(ob("cmp/tmpl/%d" % i, W, "VerifC13CmpT", [x, y], covers=["well-formed"]))
+    TR = [("?", "?", "?"), ("%F0%90%80?", "%EE%80?", "%EF%BF?")] if q else [("??", "??", "?"), ("%F0%90%80?", "%EE%80?", "%EF%BF?"), ("?", "%F0%90??", "%EF??"), ("a?", "a%F0%9F%98?", "a%EE??")]
+    for i, t in enumerate(TR):
+        L.append(ob("cmp/trans/%d" % i, W, "VerifC13CmpTrans", list(t), covers=["chain"]))
+    # ---- order
+    O = ['{"?":1,"?":2}', ' { "?" : 1 , "?" : 2 } ', '{"?":?,"?":"?"}', '{"b":{"?":1,"?":2},"a":[{"?":1,"?":2}]}',
+         '{"%EE??":1,"%F0%90??":2}', '{"%F0%9F%98?":1,"%EF%BF?":2,"?":3}', '{"\\u00??":1,"?":2}', '{"c":1,"?":2,"a":3}']
+    if not q:
+        O += ['{"?":1,"??":2,"?":3}', '{"??":1,"??":2}', '{"\\uD83D\\uDE0?":1,"\\uFF??":2}', '{"\\u????":1,"%EF%BF?":2}', '[{"?":[],"?":{}},{"?":1,"?":2}]',
+              '{"?":1,\n\t"?":{"?":2 , "?":3}}', '{"%F0???":1,"%EE??":2}', '{"?":1,"?":2,"?":3,"?":4}']
+    for i, t in enumerate(O):
+        L.append(ob("order/%d" % i, P, "VerifC13Canon", [t, 0], covers=["accept", "reject", "reordered"]))
+    # ---- class
+    C = [('{"?":1,"?":2}', '{"?":2,"?":1}', "10", 2, 0), ('{"?":1,"?":2}', '{"?":2,"?":1}', "10", 2, 3),
+         ('{"?":1,"?":[2],"?":{}}', '{"?":{},"?":1,"?":[2]}', "201", 3, 1), ('{"a?":"?","b":{"?":1,"b":2}}', '{"b":{"b":2,"?":1},"a?":"?"}', "201", 3, 2),
+         ('{"%EE??":1,"%F0%90??":2}', '{"%F0%90??":2,"%EE??":1}', "2301", 4, 3)]
+    if not q:
+        C += [('{"a?":"?","?":{"?":1,"b":2}}', '{"?":{"b":2,"?":1},"a?":"?"}', "2301", 4, 2), ('{"??":1,"??":2}', '{"??":2,"??":1}', "2301", 4, 3), ('{"?":1,"?":2,"?":3}', '{"?":3,"?":2,"?":1}', "210", 3, 3),
+              ('[{"?":?,"?":"?"}]', ' [ { "?" : "?" , "?" : ? } ] ', "2301", 4, 2), ('{"%F0%9F??":1,"%EF%BF?":2,"?":3}', '{"?":3,"%EF%BF?":2,"%F0%9F??":1}', "3201", 4, 3)]
+    for i, (t1, t2, perm, nh, xf) in enumerate(C):
+        L.append(ob("class/%d" % i, P, "VerifC13Class", [t1, t2, perm, nh, xf], covers=["accept", "reject", "different-texts"]))
+    # ---- num (concrete literals; strconv executed concretely)
+    table = "|".join("%s>%s" % (a, b) for a, b in NUMS)
+    for t in ("#", "[#]", '{"a":[1,#]}'):
+        L.append(ob("num/%s" % t, P, "VerifC13Num", [t, table], covers=["respelled", "verbatim"]))
     return L
